@@ -16,7 +16,8 @@ primary must agree with, and it tells how many I/O operations and traced lines t
 has, so that faults land inside it.
 
 Oracles after every call, returned or raised (never relaxed unless stated):
-  1 inputs and constructor-parameter objects unchanged (deep snapshots);
+  1 inputs and constructor-parameter objects unchanged (deep snapshots, scalars by type and value);
+  1b dask's process-wide configuration unchanged; no threads left running by two consecutive calls;
   2 sandbox temp directory listing unchanged (waived only for a path whose removal we made fail);
   3 transform output == pristine twin's single-call output for that input;
   4 same seed, same model: twin's fitted public attributes == primary's (1e-9).
